@@ -277,6 +277,21 @@ func (vc *FuncVC) findLoops() {
 			l.spec = vc.con.Loops[l.ordinal]
 		}
 	}
+	// a loop contract for a loop the function does not have (a loop was removed, or replaced by a library call)
+	if vc.con != nil && !vc.dry {
+		for k, ls := range vc.con.Loops {
+			if k > len(vc.loops) && ls != nil && (len(ls.Invariants) > 0 || len(ls.ExitAsserts) > 0) {
+				vc.errorf("%s: loop %d: the function has only %d loop(s); the loop contract has no loop to apply to", vc.con.Where, k, len(vc.loops))
+			}
+		}
+		if vc.fn != nil && vc.fn.Parent() == nil {
+			for k, cs := range vc.con.Callback {
+				if cs != nil && len(cs.Invariants) > 0 && k > len(vc.fn.AnonFuncs) {
+					vc.errorf("%s: callback %d: the function has only %d closure(s)", vc.con.Where, k, len(vc.fn.AnonFuncs))
+				}
+			}
+		}
+	}
 }
 
 func (vc *FuncVC) enclosingLoops(b *ssa.BasicBlock) []*loopInfo {
